@@ -116,6 +116,7 @@ class Engine(MemMixin, OpsMixin, ExecMixin):
         self.stats = Counter()
         self.loopinfo = {}
         self.fn_loops = {}
+        self.fn_live = {}
         self.fn_rot = {}            # id(body) -> rotated-loop candidates (see rot_info)
         self._rot_done = {}
         self._trial = None          # block budget of a trial run (terminal back-state test)
